@@ -262,3 +262,67 @@ Proof.
   - apply tick_next_delay; exact H.
   - apply tick_next_skip; assumption.
 Qed.
+
+(* ---- the waker stored with a timer entry ---- *)
+Lemma sleep_poll_sid now s dr : sid (snd (fst (sleep_poll now s dr))) = sid s.
+Proof. unfold sleep_poll. destruct (now <? deadline s); [destruct (handle s)|]; reflexivity. Qed.
+
+Lemma note_poll_is_sleep_poll_waker fixed now k s dr tab :
+  note_poll fixed k (match handle s with Some _ => true | None => false end) (snd (fst (sleep_poll now s dr))) tab =
+  sleep_poll_waker fixed now k s tab.
+Proof.
+  unfold note_poll, sleep_poll_waker, sleep_poll. destruct (now <? deadline s).
+  - destruct (handle s) as [h|] eqn:E; cbn [fst snd handle sid andb negb].
+    + rewrite E. destruct fixed; reflexivity.
+    + reflexivity.
+  - reflexivity.
+Qed.
+
+Lemma pending_poll_shape t s dr : t < deadline s ->
+  sleep_poll t s dr =
+  (false, {| deadline := deadline s; sid := sid s;
+             handle := Some (match handle s with None => deadline s | Some h => h end) |},
+   match handle s with None => register (sid s) (deadline s) dr | Some _ => dr end).
+Proof.
+  intros H. rewrite (pending_sleep_registers_once _ _ _ H). destruct s as [d i [h|]]; reflexivity.
+Qed.
+
+(* A registered Sleep follows the task that polls it: after any sequence of polls before the
+   deadline (by whatever tasks; the Sleep may have moved between them), the waker stored
+   with the entry is that of the task that polled LAST, and the entry was registered once. *)
+Theorem woken_through_last_poller polls : forall t k s dr tab,
+  Forall (fun p => fst p < deadline s) (polls ++ [(t, k)]) ->
+  let r := poll_seq true (polls ++ [(t, k)]) s dr tab in
+  waker_of (snd r) (sid s) = Some k /\
+  snd (fst r) = match handle s with None => register (sid s) (deadline s) dr | Some _ => dr end /\
+  handle (fst (fst r)) = Some (match handle s with None => deadline s | Some h => h end).
+Proof.
+  induction polls as [|[t0 k0] polls IH]; intros t k s dr tab Hall; cbn zeta; cbn [app poll_seq].
+  - inversion Hall as [|? ? Ht _]; subst. cbn [fst] in Ht. rewrite (pending_poll_shape _ _ _ Ht). cbn [fst snd].
+    unfold sleep_poll_waker. replace (t <? deadline s) with true by lia.
+    split; [|split; reflexivity].
+    destruct (handle s); cbn [waker_of]; rewrite N.eqb_refl; reflexivity.
+  - inversion Hall as [|? ? Ht Hr]; subst. cbn [fst] in Ht. rewrite (pending_poll_shape _ _ _ Ht).
+    set (s' := {| deadline := deadline s; sid := sid s;
+                  handle := Some (match handle s with None => deadline s | Some h => h end) |}).
+    specialize (IH t k s' (match handle s with None => register (sid s) (deadline s) dr | Some _ => dr end)
+                   (sleep_poll_waker true t0 k0 s tab) Hr).
+    cbn zeta in IH. cbn [sid deadline handle s'] in IH. exact IH.
+Qed.
+
+(* The code before commit 5af9a5f: the entry keeps the waker of the task that polled FIRST. *)
+Theorem pinned_woken_through_first_poller polls : forall t k s dr tab, handle s = None ->
+  Forall (fun p => fst p < deadline s) ((t, k) :: polls) ->
+  waker_of (snd (poll_seq false ((t, k) :: polls) s dr tab)) (sid s) = Some k.
+Proof.
+  assert (Hkeep : forall polls s dr tab h, handle s = Some h -> Forall (fun p => fst p < deadline s) polls ->
+            snd (poll_seq false polls s dr tab) = tab).
+  { induction polls0 as [|[t0 k0] polls0 IH]; intros s dr tab h Hh Hall; cbn [poll_seq]; [reflexivity|].
+    inversion Hall as [|? ? Ht Hr]; subst. cbn [fst] in Ht. rewrite (pending_poll_shape _ _ _ Ht). rewrite Hh.
+    unfold sleep_poll_waker. replace (t0 <? deadline s) with true by lia. rewrite Hh.
+    eapply IH; [reflexivity|exact Hr]. }
+  intros t k s dr tab Hn Hall. cbn [poll_seq]. inversion Hall as [|? ? Ht Hr]; subst. cbn [fst] in Ht.
+  rewrite (pending_poll_shape _ _ _ Ht). rewrite Hn.
+  unfold sleep_poll_waker. replace (t <? deadline s) with true by lia. rewrite Hn.
+  erewrite Hkeep; [|reflexivity|exact Hr]. cbn [waker_of]. rewrite N.eqb_refl. reflexivity.
+Qed.
